@@ -86,6 +86,20 @@ class Worker:
         except Exception:
             return -1.0
 
+    def blocked(self) -> bool:
+        """True when the worker is asleep and stays asleep without using CPU (waiting for a lock, a pipe, a sleep): a starved but
+        runnable process is in state R, a busy one accumulates CPU time."""
+        try:
+            samples = []
+            for _ in range(6):
+                with open(f"/proc/{self.proc.pid}/stat") as f:
+                    parts = f.read().rsplit(")", 1)[1].split()
+                samples.append((parts[0], int(parts[11]) + int(parts[12])))
+                time.sleep(0.1)
+            return all(st == "S" for st, _ in samples) and samples[0][1] == samples[-1][1]
+        except Exception:
+            return False
+
     def kill(self):
         try:
             self.proc.kill()
@@ -179,9 +193,10 @@ def run_cases(task: str, cases, *, workers: int | None = None, deadline_s: float
                     obs = w.recv(deadline_s)
                 if obs == "timeout":
                     cpu = w.cpu_seconds()
+                    blocked = w.blocked()
                     w.kill()
                     err = w.stderr_tail(60)
-                    out.put((c, {"_timeout": True, "cpu_s": cpu, "stderr": err[-1500:], "_stuck_at": stuck_location(err)}))
+                    out.put((c, {"_timeout": True, "cpu_s": cpu, "_blocked": blocked, "stderr": err[-1500:], "_stuck_at": stuck_location(err)}))
                     w = None
                 elif obs is None:
                     w.kill()
